@@ -77,6 +77,10 @@ func genCase(mode string, seed uint64, run int, tier string) (*Case, error) {
 }
 
 func genCase0(mode string, seed uint64, run int, tier string) (*Case, error) {
+	bareAnyRate = 0.04
+	if mode == "C18" {
+		bareAnyRate = 0
+	}
 	switch mode {
 	case "C04":
 		return genC04(seed, run, tier), nil
